@@ -270,7 +270,7 @@ def run(args):
             if "double" not in str(f.get("clsargs")):
                 continue
             n_assert_dbg += 1
-            ok = raises and eps and op == "!<" and sl is not None and sl[1] == rot_len
+            ok = raises and eps and op in ("!<", "!<=", ">=", ">") and sl is not None and sl[1] == rot_len
             rep.obligation(ok, lambda f=f, raises=raises, sl=sl, op=op, eps=eps: C.Finding(
                 "C13", "R-ASSERT", f["name"], "with assertions enabled the acceptance test is not `|norm(rotation slice) - 1| < Constants::eps` raising invalid_argument otherwise (raises=%s, slice=%s, comparison=%s, eps=%s)" % (raises, sl, op, eps),
                 f["file"], f["line"]))
